@@ -469,7 +469,7 @@ def check_macros(ctx, n):
         funs = {}
         lines = []
         for name in rng.sample(["MX", "N_1", "VAL", "Q"], rng.choice([1, 2])):
-            objs[name] = rng.choice(NASTY + ["3", "x_y", "(1+2)"])
+            objs[name] = rng.choice(NASTY + ["3", "x_y", "(1+2)", "(2)", "(i, j)", "( n )", "(kind=8)"])
             lines.append("#define %s %s" % (name, objs[name]))
         if rng.random() < 0.5:
             body = rng.choice(["(u+v)", "u*v\\n", "v - u", "foo(u, v)", "u\\v"])
